@@ -619,10 +619,8 @@ func validateHeaderParameters(h map[any]any, protected bool) error {
 			if protected {
 				return errors.New("header parameter: counter signature: not allowed")
 			}
-			if _, ok := value.(*Countersignature); !ok {
-				if _, ok := value.([]*Countersignature); !ok {
-					return errors.New("header parameter: counter signature is not a Countersignature or a list")
-				}
+			if !isCountersignatureValue(value) {
+				return errors.New("header parameter: counter signature is not a Countersignature or a list")
 			}
 		case HeaderLabelCounterSignature0:
 			if protected {
@@ -635,10 +633,8 @@ func validateHeaderParameters(h map[any]any, protected bool) error {
 			if protected {
 				return errors.New("header parameter: Countersignature version 2: not allowed")
 			}
-			if _, ok := value.(*Countersignature); !ok {
-				if _, ok := value.([]*Countersignature); !ok {
-					return errors.New("header parameter: Countersignature version 2 is not a Countersignature or a list")
-				}
+			if !isCountersignatureValue(value) {
+				return errors.New("header parameter: Countersignature version 2 is not a Countersignature or a list")
 			}
 		case HeaderLabelCounterSignature0V2:
 			if protected {
@@ -650,6 +646,30 @@ func validateHeaderParameters(h map[any]any, protected bool) error {
 		}
 	}
 	return nil
+}
+
+// isCountersignatureValue reports whether v is a Countersignature object or a
+// non-empty list of Countersignature objects, i.e.
+//
+//	COSE_Countersignature / [+ COSE_Countersignature]
+//
+// Reference: https://www.rfc-editor.org/rfc/rfc9338.html#section-3.1
+func isCountersignatureValue(v any) bool {
+	switch v := v.(type) {
+	case *Countersignature:
+		return v != nil
+	case []*Countersignature:
+		if len(v) == 0 {
+			return false
+		}
+		for _, countersignature := range v {
+			if countersignature == nil {
+				return false
+			}
+		}
+		return true
+	}
+	return false
 }
 
 // canUint reports whether v can be used as a CBOR uint type.
